@@ -256,7 +256,8 @@ let run_hist hfn zh (tys : string) (vals : string) (route : string) (ops : strin
        let hd = List.nth m.hm.m_handles (int_of_string h) in
        m.snaps <- (hd.h_back, habs m.hm.m_store hd.h_back) :: m.snaps;
        add key "OK"
-     | L [A "rebuild"; A h] ->
+     | L [A "htrpanic"; A _] -> add key "OK"  (* an aborted root request: nothing observable changes *)
+     | L [A "rebuild"; A h] | L [A "rebuildf"; A h] ->
        (* the tree is rebuilt node by node with its memos (a loader): nothing changes *)
        let hi = int_of_string h in
        (match List.nth_opt m.hm.m_handles hi with
